@@ -22,7 +22,7 @@ FAMS = ["single:conv@8", "single:dw@8", "single:maxpool@8", "single:avgpool@8", 
         "single:add@8", "single:sub@8", "single:mul@8", "single:add_bcast@8", "single:mul_scalar@8", "single:concat@u8", "diamond", "siamese", "single:logistic@8", "single:tanh@8", "single:lrelu@8", "single:hswish@8",
         "single:transpose@8", "single:reshape@8", "single:pad@8", "single:slice@8", "single:concat@8", "conv_chain",
         "single:conv", "single:dw", "single:fc", "single:maxpool", "single:avgpool", "single:pad_bc@8",
-        "single:quantize", "single:resize_nearest@8", "single:resize_bilinear@8", "single:tconv@8", "upscale_chain", "conv_chain_big", "weights_heavy"]
+        "single:quantize", "single:resize_nearest@8", "single:resize_bilinear@8", "single:tconv@8", "upscale_chain", "conv_chain_big", "weights_heavy", "single:mean@8"]
 
 
 def macs_of(ref):
@@ -190,7 +190,7 @@ def run(tier):
     res.cov.update({
         "explanation": "Partial. Whole-network equivalence for all networks is not proved. The command streams of %d compiled networks "
                        "(convolution / depthwise / fully connected / pooling chains, elementwise add / sub / mul with broadcasts and scalars, "
-                       "concatenation incl. the rescaling uint8 form, requantisation, transposed convolution, x2 resize, 8-bit table activations, memory-only operators; int8, uint8 and (convolution, "
+                       "concatenation incl. the rescaling uint8 form, requantisation, transposed convolution, x2 resize, mean, 8-bit table activations, memory-only operators; int8, uint8 and (convolution, "
                        "depthwise, fully connected, pooling) int16, all accelerators and memory modes) were "
                        "executed by the extracted Coq interpreter hw/NpuExec.v on random inputs and compared bit for bit (one step for padded "
                        "average pools) with the TFLite reference kernels evaluated on the source model. Networks using operators the "
@@ -205,9 +205,10 @@ def run(tier):
                                  "concatenation with scaling, pad, reshape, transpose, strided slice, relu)",
                                  "tools/tflsum.py"])
     res.assumptions += ["sampled networks and inputs", "8-bit table-based activations and bilinear resize are executed only as the last operator of a network (one step allowed "
-                        "against the real function); softmax, mean, 16-bit elementwise and table operators are not executed (parameter-level checks in C09/C19/C10)",
+                        "against the real function); softmax, 16-bit elementwise and table operators are not executed (parameter-level checks in C09/C19/C10)",
                         "the elementwise operand-scaling semantics of hw/NpuExec.v (input shift 20/15, 32-bit scaling of one operand with double "
-                        "rounding, the other shifted one bit less) is a reading of the hardware interface calibrated against the reference kernels"]
+                        "rounding, the other shifted one bit less; zero points and the 16-bit activation range not applied to 32-bit feature maps; "
+                        "x2 nearest / zero-insertion resampling) is a reading of the hardware interface calibrated against the reference kernels"]
     for r, diffs, nd, ne in bad:
         res.violation({"net": r.get("net_name"), "seed": r["job"]["seed"], "kind": "output_differs"},
                       {"job": r["job"], "ops": r.get("net_desc"), "differing_elements": nd, "of": ne,
